@@ -7,6 +7,7 @@ from __future__ import annotations
 
 import datetime as _dt
 import importlib
+import operator as _operator
 import io as _io
 import math as _math
 import struct as _struct
@@ -46,12 +47,14 @@ def _rebind_table():
         id(_math): M.MathModel(),
         id(_math.isfinite): M.model_isfinite,
         id(_math.isnan): M.model_isnan,
+        id(_operator): M.OperatorModel(),
+        id(_operator.index): M.operator_index,
         id(_crc): M.CRCModule,
         id(_crc.crc32c): M.crc_model,
         id(ErrorCode): M.EnumModel(ErrorCode, symbolic_member=True),
         id(NullableEntityMarker): M.EnumModel(NullableEntityMarker),
     }
-    keep = [_struct, _io, _dt, _uuid, _math, _crc, ErrorCode, NullableEntityMarker]
+    keep = [_struct, _io, _dt, _uuid, _math, _crc, _operator, ErrorCode, NullableEntityMarker]
     return tab, keep
 
 
@@ -100,6 +103,12 @@ class ShadowType:
 
 
 def _int_from_bytes(data, byteorder="big", *, signed=False):
+    if type(data).__name__ == "Packed" and type(data).__module__ == "kv.rmode":
+        # R-mode: the bytes struct.pack would produce for an integer, kept as (format, value)
+        code = data.fmt[-1]
+        if byteorder == "big" and data.fmt[0] in ">!" and code in "bhiqBHIQ" and bool(signed) == code.islower():
+            return data.v
+        raise M.Unsupported("int.from_bytes of R-mode bytes with a different width/signedness than packed")
     if type(data) is S.SymBytes or type(data).__module__ == "kv.bufmodels":
         return S.int_from_bytes(S.SymBytes.of(data).expanded(), byteorder, signed)
     return int.from_bytes(data, byteorder, signed=signed)
@@ -199,7 +208,7 @@ def _struct_model(v):
     """-> model for a precompiled struct.Struct instance or for a bound pack/unpack method of one, else None"""
     if isinstance(v, _struct.Struct):
         return M.StructObjModel(v.format)
-    if isinstance(v, types.BuiltinMethodType) and isinstance(getattr(v, "__self__", None), _struct.Struct) and v.__name__ in ("pack", "unpack", "unpack_from"):
+    if isinstance(v, types.BuiltinMethodType) and isinstance(getattr(v, "__self__", None), _struct.Struct) and v.__name__ in ("pack", "unpack", "unpack_from", "pack_into"):
         return getattr(M.StructObjModel(v.__self__.format), v.__name__)
     return None
 
